@@ -30,7 +30,7 @@ BUDGET = {"quick": 100, "thorough": 1500}
 
 def cases(tier, seed):
     rnd = random.Random(f"C12/{tier}/{seed}")
-    n = 250 if tier == "quick" else 15000
+    n = 250 if tier == "quick" else 60000
     for i in range(n):
         yield {"gen": rnd.choice((4, 5)), "seed": rnd.randrange(1 << 30),
                "n": rnd.randint(3, 25), "raise_mask": i % 16}
